@@ -140,3 +140,53 @@ func longLived(seed uint64, p *Profile, prop string) *Scenario {
 	sc.World.Net.MinLat, sc.World.Net.Jitter = 200*time.Microsecond, 0
 	return sc
 }
+
+// takeover: the two members of a session leave while one connection creates a session (which
+// reuses the id) and another joins the old one by id - refused, or landing in the new session at
+// the very moment its creator sets it up. Whatever the late joiner then attaches must become part
+// of the state of the session it is in.
+func takeover(seed uint64, p *Profile, prop string) *Scenario {
+	r := simrt.NewRand(seed, "takeover")
+	g := &genState{r: r, p: p, joined: map[int]string{}, dead: map[int]bool{}, sessN: 1}
+	add := func(st Step) { g.steps = append(g.steps, st) }
+	g.join(0, "S0")
+	if r.Bool(0.7) {
+		g.join(1, "S0")
+	}
+	for i := r.Intn(3); i > 0; i-- {
+		add(g.makeOp(r.Intn(2), []string{"entity_add", "type_add", "action", "asset_add"}[r.Intn(4)]))
+	}
+	g.nextBlk++
+	add(Step{Conn: 0, Op: "close", Block: g.nextBlk})
+	if g.joined[1] != "" {
+		add(Step{Conn: 1, Op: "close", Block: g.nextBlk})
+	}
+	add(Step{Conn: 2, Op: "join", Sess: "new", Block: g.nextBlk})
+	add(Step{Conn: 3, Op: "join", Sess: "S0", Block: g.nextBlk})
+	if r.Bool(0.4) {
+		add(Step{Conn: 4, Op: "join", Sess: "S0", Block: g.nextBlk})
+	}
+	for _, c := range []int{3, 2, 3} {
+		st := g.makeOp(c, "entity_add")
+		st.NoPose = false
+		add(st)
+		for _, op := range []string{"action", "asset_add", "quad_sample"} {
+			if r.Bool(0.6) {
+				st := g.makeOp(c, op)
+				st.Ent = Ref{K: "own"}
+				add(st)
+			}
+		}
+	}
+	add(Step{Conn: 5, Op: "join", Sess: "new"})
+	g.nConns = 6
+	sc := &Scenario{Prop: prop, Family: "history", Seed: seed, Steps: g.steps}
+	sc.World = genWorld(seed, r, p)
+	sc.World.Modules = []string{"vikja", "odal", "dagaz"}
+	if sc.World.Policy == "seq" {
+		sc.World.Policy = "rand"
+	}
+	sc.World.Net.Jitter = 0
+	sc.World.UnlockYield = []float64{0.2, 0.5, 0.8}[r.Intn(3)]
+	return sc
+}
